@@ -52,6 +52,16 @@ CostOf(R, ga, st) == IF R.P.metric.kind = "costs" THEN ActCost(R, R.P.metric, ga
 LenAsCosts(c) == "length_as_unit_costs" \in DOMAIN Corpus[c] /\ Corpus[c].length_as_unit_costs
 MKind(c, P) == IF LenAsCosts(c) /\ P.metric.kind = "length" THEN "costs" ELSE P.metric.kind
 CostOfC(c, R, ga, st) == IF LenAsCosts(c) /\ R.P.metric.kind = "length" THEN ONE ELSE CostOf(R, ga, st)
+\* Optional record field final_value_metric (C21; absent = FALSE = not compared): when both problems carry a
+\* metric on the final state (minfinal / maxfinal) its expression must have the same value in every reachable
+\* state (any of them can be a final state); values reading undefined fluents are an unspecified zone.
+FinalMetric(c) == "final_value_metric" \in DOMAIN Corpus[c] /\ Corpus[c].final_value_metric
+IsFinalKind(P) == P.metric.kind \in {"minfinal", "maxfinal"}
+SameFinalMetric(c, st, stb) ==
+   ~FinalMetric(c) \/ ~IsFinalKind(Corpus[c].A) \/ ~IsFinalKind(Corpus[c].B)
+   \/ LET va == Eval(RA(c), Corpus[c].A.metric.expr, st, <<>>)
+          vb == Eval(RB(c), Corpus[c].B.metric.expr, stb, <<>>)
+      IN IsU(va) \/ IsU(vb) \/ VEq(va, vb)
 
 Equivalent ==
    LET c == cid IN
@@ -77,4 +87,5 @@ Equivalent ==
       /\ LET g1 == Goal3(RA(c), s)
              g2 == Goal3(RB(c), sb)
          IN g1 = "?" \/ g2 = "?" \/ g1 = g2 \/ Report(c, "goal-verdict-A-" \o g1 \o "-B-" \o g2, "")
+      /\ (SameFinalMetric(c, s, sb) \/ Report(c, "metric-value-differs", ""))
 =============================================================================
